@@ -270,7 +270,13 @@ impl Mux {
                         length -= size;
                     }
                 }
-                _ => unreachable!("bad FrameKind"),
+                // The fourth combination of the frame kind bits is not assigned.
+                _ => {
+                    return Err(RunError::Protocol(anyhow::format_err!(
+                        "bad frame kind in header {:#06x}",
+                        header.0
+                    )))
+                }
             }
         }
     }
